@@ -68,3 +68,15 @@ package nack
 //@   loop 1 invariant complete: forall x uint16 :: x - s.lastConsecutive - 1 < i - s.lastConsecutive - 1 && !bit(s, x) ==> (exists j int :: 0 <= j && j < c && missingPacketSeqNums[j] == x)
 //@   loop 1 invariant ascending: forall j int, k int :: 0 <= j && j < k && k < c ==> missingPacketSeqNums[j] - s.lastConsecutive < missingPacketSeqNums[k] - s.lastConsecutive
 //@   loop 1 decreases until + 1 - i
+//@
+//@ func newReceiveLog
+//@   modifies nothing
+//@   ensures accepts: (result0 != nil) <==> (pow2(size) && size >= 64)
+//@   ensures err: (result0 == nil) <==> (result1 != nil)
+//@   ensures fresh: result0 != nil ==> fresh(result0)
+//@   ensures inv: result0 != nil ==> inv(result0) && !result0.started && result0.size == size
+//@   loop 1 invariant range: 6 <= i && i <= 16 && !correctSize && fresh(allowedSizes)
+//@   loop 1 invariant tried: (i > 6 ==> size != 64) && (i > 7 ==> size != 128) && (i > 8 ==> size != 256) && (i > 9 ==> size != 512)
+//@     && (i > 10 ==> size != 1024) && (i > 11 ==> size != 2048) && (i > 12 ==> size != 4096) && (i > 13 ==> size != 8192)
+//@     && (i > 14 ==> size != 16384) && (i > 15 ==> size != 32768)
+//@   loop 1 decreases 16 - i
